@@ -316,6 +316,7 @@ class HRow:
     """Row<dof,Vec3>"""
     def __init__(self, e): self.e = list(e)
     def __invert__(self): return HRowT(self)
+    def __rmod__(self, v): return HRow([v % x for x in self.e])      # Vec3 % Row<dof,Vec3>: cross product with every element (added for C01/C02)
     def __mul__(self, o):
         if isinstance(o, HRowT):          # Row<dof,Vec3> * Vec<dof,Row3> = sum of outer products (Mat33)
             assert len(o.r.e) == len(self.e)
